@@ -436,6 +436,40 @@ def bulk_converts_all(c, chk):
     elif n:
         chk.ok('R4.10', 'cfg_opt_setmulti: %d paths through the token loop' % n, 'tokens 0, 1, 2, ... in order', sample=True)
     chk.floor('R4.10 paths through the token loop', n, 2)
+    # the by-name entry hands the bulk setter the vector and the count it was given (or takes the tokens one by one itself)
+    fn2 = c.need('cfg_setmulti')
+    n2 = 0
+    bad2 = None
+    for p in ex.explore(fn2):
+        for e in p.events:
+            if e.kind != 'call' or e.inlined:
+                continue
+            if e.name == 'cfg_opt_setmulti' and len(e.args) > 3:
+                n2 += 1
+                if e.args[2] != ('p', 'nvalues') or e.args[3] != ('p', 'values'):
+                    bad2 = bad2 or (p, e, 'hands the bulk setter (%s, %s) instead of the count and the vector it was given' % (sym.render(e.args[2]), sym.render(e.args[3])))
+        direct = [e for e in p.events if e.kind == 'call' and not e.inlined and e.name == 'cfg_setopt']
+        want = 0
+        for e in direct:
+            n2 += 1
+            a = e.args[2] if len(e.args) > 2 else None
+            idx = None
+            if a is not None and a[0] == 'ld':
+                if a[1] == ('p', 'values'):
+                    idx = 0
+                elif a[1][0] == 'idx' and a[1][1] == ('p', 'values') and sym.is_const(a[1][2]):
+                    idx = a[1][2][1]
+            if idx != want:
+                bad2 = bad2 or (p, e, 'converts %s where token %d of the vector is due' % (sym.render(a) if a else '?', want))
+                break
+            want += 1
+    if bad2 is not None:
+        p, e, why = bad2
+        chk.fail('R4.10', 'bulk-by-name-skips-token', c.where(e.ins), 'cfg_setmulti() %s (%s): tokens that are never handed to the conversion cannot be refused, a vector with an '
+                 'invalid token in front is accepted' % (why, fp.cond_text(p, 4)))
+    elif n2:
+        chk.ok('R4.10', 'cfg_setmulti: %d storing calls' % n2, 'the whole vector goes to the bulk setter', sample=True)
+    chk.floor('R4.10 storing calls of the by-name bulk setter', n2, 1)
 
 
 def verdict_is_the_conversions(c, chk):
